@@ -29,38 +29,58 @@ def run_cfg(ctx, p, cfg):
         d = ro["deliver"]
         fc = d.call1(FILTER, "Filter::filter")
         ac = d.call1(APPEND, "Append::append")
-        # find the switch on the filter response
-        sw = None
-        for b in d.blocks:
-            if b["term"]["k"] == "switch":
-                si = SwitchInfo(d, b["id"])
-                e = strip(si.discr)
-                if e[0] == "discr" and strip(e[1])[0] == "call" and strip(e[1])[1] == FILTER:
-                    sw = si
-        if sw is None:
+        # decision table over the filter's response: for each variant, the region reachable from the filter call when every
+        # switch on that response takes only the edges the variant allows (one match, or several tests in a row)
+        def is_resp(si):
+            e = strip(si.discr)
+            return e[0] == "discr" and strip(e[1])[0] == "call" and strip(e[1])[1] == FILTER
+        resp_sw = [SwitchInfo(d, b["id"]) for b in d.blocks if b["term"]["k"] == "switch" and b["id"] in d.reachable_blocks() and is_resp(SwitchInfo(d, b["id"]))]
+        if not resp_sw:
             raise ShapeUnrecognised("no discriminant switch on the Filter::filter response in %s (derived == comparisons are not enumerated)" % d.path)
-        tg = {lab: t for lab, t in sw.labelled_edges()}
+        nb = [c.block for c in d.calls(NEXT)]
+
+        def region(variant, avoid=()):
+            start = d.term(fc.block)["target"]
+            seen, todo = set(), [start]
+            while todo:
+                b = todo.pop()
+                if b in seen or b in avoid:
+                    continue
+                seen.add(b)
+                t = d.term(b)
+                if t["k"] == "switch" and any(si.b == b for si in resp_sw):
+                    si = [x for x in resp_sw if x.b == b][0]
+                    for lab, tgt in si.labelled_edges():
+                        ok = lab == variant or (isinstance(lab, tuple) and lab and lab[0] == "otherwise" and variant in lab[1])
+                        if ok:
+                            todo.append(tgt)
+                    continue
+                todo.extend(d.succ[b])
+            return seen
+        covered = set()
+        for si in resp_sw:
+            for lab, tgt in si.labelled_edges():
+                covered |= {lab} if not isinstance(lab, tuple) else set(lab[1])
         for need in ("Accept", "Neutral", "Reject"):
-            if need not in tg:
-                raise ShapeUnrecognised("Response::%s has no arm of its own in the switch: %s" % (need, list(tg)))
-        acc, neu, rej = tg["Accept"], tg["Neutral"], tg["Reject"]
-        ra = d.reach(acc, avoid={fc.block}, include_src=True)
+            if need not in covered:
+                raise ShapeUnrecognised("Response::%s is not decided by the tests on the filter response" % need)
+        ra = region("Accept", avoid={fc.block} | set(nb))
         r.require(ac.block in ra, "accept-delivers", fn=d, site=fc.at,
-                  detail="Accept arm reaches Append::append without consulting another filter")
-        r.require(not any(rb in d.reach(acc, avoid={ac.block}, include_src=True) for rb in d.return_blocks()), "accept-always-delivers", fn=d,
-                  detail="no path from the Accept arm to return that skips Append::append")
-        rr = d.reach(rej, include_src=True)
-        r.require(ac.block not in rr and fc.block not in rr, "reject-drops", fn=d, site=fc.at,
-                  detail="Reject arm reaches neither Append::append nor a later filter")
+                  detail="Accept reaches Append::append without consulting another filter")
+        rs = region("Accept", avoid={ac.block})
+        r.require(not any(rb in rs for rb in d.return_blocks()) and fc.block not in rs and not any(x in rs for x in nb), "accept-always-delivers", fn=d,
+                  detail="from an Accept response every path leads to Append::append: none to return, to the iterator step or to another filter")
+        rr = region("Reject")
+        r.require(ac.block not in rr and fc.block not in rr and not any(x in rr for x in nb), "reject-drops", fn=d, site=fc.at,
+                  detail="Reject reaches neither Append::append nor a later filter")
         rets = q.ret_assignments(d)
-        rej_rets = [e for b, e in rets if b in rr or b == rej]
+        rej_rets = [e for b, e in rets if b in rr]
         r.require(rej_rets and all(q.classify_ret(e) == "ok" for e in rej_rets), "reject-returns-ok", fn=d,
                   detail="Reject returns Ok(()) (a rejection is not an error): %s" % [show(e) for e in rej_rets])
-        rn = d.reach(neu, include_src=True)
-        nb = [c.block for c in d.calls(NEXT)]
+        rn = region("Neutral")
         r.require(fc.block in rn and ac.block in rn, "neutral-continues", fn=d,
-                  detail="Neutral arm returns to the chain (next filter reachable, delivery reachable on exhaustion)")
-        r.require(ac.block not in d.reach(neu, avoid=set(nb), include_src=True), "neutral-goes-through-iterator", fn=d,
+                  detail="Neutral returns to the chain (next filter reachable, delivery reachable on exhaustion)")
+        r.require(ac.block not in region("Neutral", avoid=set(nb)), "neutral-goes-through-iterator", fn=d,
                   detail="from Neutral, delivery is reached only through the iterator step (exhaustion)")
         # the filter call consults the record being delivered, and delivery passes the same record
         r.require(deep_strip(fc.arg(1)) == ("param", 2) and deep_strip(ac.arg(1)) == ("param", 2), "same-record", fn=d,
